@@ -161,6 +161,11 @@ static void run_seq(const unsigned char *ops, int n)
   reset();
   memcpy(cur, ops, n); curlen = n;
   seqs++;
+  if (n >= 6 && (seqs % 400009) == 7) {
+    char t[160]; int k = 0;
+    for (i = 0; i < n; i++) k += snprintf(t + k, sizeof t - k, ops[i] < 4 ? "ins(%ld) " : "delmin ", KEYS[ops[i] & 3]);
+    nqv_sample((unsigned char *) t, strlen(t), 1);
+  }
   for (i = 0; i < n; i++) {
     cases++;
     if (ops[i] < 4) { if (!do_insert(KEYS[ops[i]], 0, 1)) break; }
